@@ -30,3 +30,36 @@ Print Assumptions C12_masked_spline_is_elementwise.
    scatter (C07), composition (C08), merge / split / repeat_rows (C20), elementwise kernels (C01).  Batch-global
    behaviour that remains by design: the domain checks use torch.min / torch.max over the whole batch, so one
    out-of-domain row makes the call raise for all rows; BatchNorm in TRAINING mode mixes rows (C14). *)
+
+(* ---- the four unconstrained_*_spline wrappers as regenerated from the source are per-element functions: an element
+   inside [-B, B] gets the inner spline with EVERY configured value (box = [-B, B]^2, minimum sizes, minimum derivative,
+   flags) whatever the rest of the batch holds; an element outside is returned unchanged with log-det 0.  A batch-wide
+   shortcut, or an argument that is not forwarded, changes the generated definition and breaks these. *)
+From Coq Require Import ZArith.
+From NF Require Import Base.Ops Gen.TailWrappers.
+
+Theorem C12_linear_tails_per_element : forall (T : Type) (O : ops T) inner (x : T) pdf B inv,
+  lin_tails_elem O inner x pdf B inv
+  = if andb (o_leb O (o_neg O B) x) (o_leb O x B) then inner x pdf inv (o_neg O B) B (o_neg O B) B else (x, o_ofZ O 0%Z).
+Proof. reflexivity. Qed.
+Print Assumptions C12_linear_tails_per_element.
+
+Theorem C12_quadratic_tails_per_element : forall (T : Type) (O : ops T) inner (x : T) uw uh B mbw mbh inv,
+  quad_tails_elem O inner x uw uh B mbw mbh inv
+  = if andb (o_leb O (o_neg O B) x) (o_leb O x B) then inner x uw uh inv (o_neg O B) B (o_neg O B) B mbw mbh else (x, o_ofZ O 0%Z).
+Proof. reflexivity. Qed.
+Print Assumptions C12_quadratic_tails_per_element.
+
+Theorem C12_cubic_tails_per_element : forall (T : Type) (O : ops T) inner (x : T) uw uh dl dr B mbw mbh eps qt inv,
+  cub_tails_elem O inner x uw uh dl dr B mbw mbh eps qt inv
+  = if andb (o_leb O (o_neg O B) x) (o_leb O x B) then inner x uw uh dl dr inv (o_neg O B) B (o_neg O B) B mbw mbh eps qt else (x, o_ofZ O 0%Z).
+Proof. reflexivity. Qed.
+Print Assumptions C12_cubic_tails_per_element.
+
+Theorem C12_rq_tails_per_element : forall (T : Type) (O : ops T) inner (x : T) uw uh ud B mbw mbh md inv eii,
+  rq_tails_elem O inner x uw uh ud B mbw mbh md inv eii
+  = if andb (o_leb O (o_neg O B) x) (o_leb O x B)
+    then inner x uw uh (pad_ends (o_ln O (o_sub O (o_exp O (o_sub O (o_ofZ O 1%Z) md)) (o_ofZ O 1%Z))) ud) inv (o_neg O B) B (o_neg O B) B mbw mbh md eii
+    else (x, o_ofZ O 0%Z).
+Proof. reflexivity. Qed.
+Print Assumptions C12_rq_tails_per_element.
